@@ -76,6 +76,10 @@ def main():
         for v in res.get("violations", []):
             if isinstance(v.get("case"), dict):
                 v["case"].setdefault("pythonhashseed", int(os.environ.get("PYTHONHASHSEED", "0") or 0))
+                if sys.flags.optimize:
+                    v["case"].setdefault("python_O", True)
+        if sys.flags.optimize:
+            res["counters"]["shards_run_under_python_O"] = res["counters"].get("shards_run_under_python_O", 0) + 1
         res["sets"]["functions_entered"] = instrument.functions_entered()
         with open(out_path, "w") as f:
             json.dump(res, f)
